@@ -15,7 +15,8 @@ pub struct Wire {
     /// in arrival order; names as the client spelled them
     pub headers: Vec<(Vec<u8>, Vec<u8>)>,
     pub body: Vec<u8>,
-    /// 0: `Bytes`, 1: `Vec<u8>`, 2: `()` (used only when body is empty)
+    /// 0: `Bytes`, 1: `Vec<u8>`, 2: `()` (used only when body is empty), 3: `Bytes` of which the caller keeps a clone,
+    /// 4: `Bytes` that is a window into a larger buffer
     pub body_kind: u8,
 }
 
